@@ -221,6 +221,21 @@ class Hook:
                     return out
             if name in ('ldlt', 'llt', 'fullPivLu', 'partialPivLu', 'colPivHouseholderQr', 'householderQr', 'fullPivHouseholderQr') and not e.get('args'):
                 return [(('decomposition', ov), s2) for (ov, s2) in rd.ev(e['obj'], st, ctx)]
+            if name == 'compute' and len(e.get('args', [])) == 1 and ((strip_casts(e['obj']).get('t') or {}).get('s', '')).replace('const ', '').startswith(
+                    ('Eigen::LDLT<', 'Eigen::LLT<', 'Eigen::PartialPivLU<', 'Eigen::FullPivLU<', 'Eigen::ColPivHouseholderQR<', 'Eigen::HouseholderQR<', 'Eigen::FullPivHouseholderQR<')):
+                # a stored factorisation object (member or local) is given a new matrix: from here on it stands for that matrix
+                lv = rd.lvalue(strip_casts(e['obj']), st, ctx)
+                if lv and lv[0] in ('field', 'local'):
+                    out = []
+                    for (v_, s2) in rd.ev(e['args'][0], st, ctx):
+                        if not isinstance(v_, sp.MatrixBase):
+                            return NotImplemented
+                        if lv[0] == 'field':
+                            s2.fields[lv[1]] = ('decomposition', v_)
+                        else:
+                            s2.locals[lv[1]] = ('decomposition', v_)
+                        out.append((('decomposition', v_), s2))
+                    return out
             out = []
             for (ov, s2) in rd.ev(e['obj'], st, ctx):
                 if isinstance(ov, tuple) and len(ov) == 2 and ov[0] == 'decomposition' and name == 'solve' and isinstance(ov[1], sp.MatrixBase):
@@ -302,7 +317,7 @@ class Hook:
         return NotImplemented
 
 
-def run(fx, f, inst, max_paths=16, denominators=None):
+def run(fx, f, inst, max_paths=16, denominators=None, state=None, args=None):
     """final states of method f on the instance (one per path); raises sym.Unsupported when not interpretable.
     `denominators`: a list that receives (expression, location) for every quantity something is divided by on the way."""
     H = Hook(inst)
@@ -319,6 +334,8 @@ def run(fx, f, inst, max_paths=16, denominators=None):
             return _arith(op, a, b, e)
         rd.arith = recording
     rd.unroll = 16
+    if state is not None:
+        return rd.run(f, state=state, args=args) if args is not None else rd.run(f, state=state)
     st0 = sym.State()
     for k, v in inst.init.items():
         st0.fields[('this', k)] = v
